@@ -1169,3 +1169,46 @@ Section Ideal.
     simpl. intro Hc. discriminate.
   Qed.
 End Ideal.
+
+(* ---- auth_modes -> client flags (Model/AuthModes.v) ---- *)
+From ST Require Import Model.AuthModes.
+From Coq Require Import Permutation.
+
+Lemma has_mode_In : forall m modes, has_mode m modes = true <-> In m modes.
+Proof.
+  intros m modes. unfold has_mode. rewrite existsb_exists. split.
+  - intros (x & Hx & E). apply Z.eqb_eq in E. subst. exact Hx.
+  - intro H. exists m. split; [exact H|apply Z.eqb_refl].
+Qed.
+
+(* membership only: the order of auth_modes, repetitions and unknown entries do not matter *)
+Theorem has_mode_perm : forall m l1 l2, (forall x, In x l1 <-> In x l2) -> has_mode m l1 = has_mode m l2.
+Proof.
+  intros m l1 l2 H. destruct (has_mode m l1) eqn:E1; destruct (has_mode m l2) eqn:E2; auto.
+  - apply has_mode_In in E1. apply H in E1. apply has_mode_In in E1. congruence.
+  - apply has_mode_In in E2. apply H in E2. apply has_mode_In in E2. congruence.
+Qed.
+
+Theorem wired_client_perm : forall l1 l2 daemon scion,
+  (forall x, In x l1 <-> In x l2) -> wired_client l1 daemon scion = wired_client l2 daemon scion.
+Proof.
+  intros l1 l2 daemon scion H. unfold wired_client.
+  rewrite (has_mode_perm mode_nts l1 l2 H), (has_mode_perm mode_spao l1 l2 H). reflexivity.
+Qed.
+
+(* NTS configured <-> NTS on at every client the service builds, with the fetcher of its server *)
+Theorem wired_client_nts : forall modes daemon scion,
+  a_nts (wired_client modes daemon scion) = true <-> In mode_nts modes.
+Proof.
+  intros modes daemon scion. rewrite <- has_mode_In. unfold wired_client.
+  destruct scion; simpl; tauto.
+Qed.
+
+Theorem cfg_oracle_holds_of_model : forall modes daemon scions,
+  C05_cfg_ok modes (map (wired_client modes daemon) scions) = true.
+Proof.
+  intros modes daemon scions. unfold C05_cfg_ok. rewrite forallb_forall. intros c Hc.
+  apply in_map_iff in Hc. destruct Hc as (s & Hs & _). subst c.
+  unfold C05_cfg_client_ok, wired_client. destruct (has_mode mode_nts modes); [|reflexivity].
+  destruct s; reflexivity.
+Qed.
